@@ -370,7 +370,10 @@ class CallMixin:
                     self.limit(f'modifies clause {loc!r} of {c.key} is not a heap location', node)
             fr.old = old
             if k == 0:
-                result = self.fresh(c.returns, 'ret') if c.returns is not None else NONE
+                if c.returns_ghost:
+                    result = self.frames[0].env[c.returns_ghost]
+                else:
+                    result = self.fresh(c.returns, 'ret') if c.returns is not None else NONE
                 env['result'] = result
                 for nm, e in c.ensures:
                     self.assume_spec(e)
